@@ -33,16 +33,17 @@ type c10Step struct {
 }
 
 type c10Scenario struct {
-	AfterRefusedResume int        `json:"previous_session_stanzas_then_refused_resume"` // >0: a previous stream-managed session held this many stanzas, was lost, and its resumption was refused
-	Client             ClientOpts `json:"client"`
-	Steps              []c10Step  `json:"steps"`
-	Seg                int        `json:"segmentation"`
-	LatencyNs          int64      `json:"latency_ns"`
-	ResumeDropFirst    bool       `json:"first_resumption_attempt_loses_its_connection,omitempty"` // with loss_and_resumption_at_the_end: the connection of the first attempt breaks while the answer to <resume/> is awaited
-	ResumeAtEnd        bool       `json:"loss_and_resumption_at_the_end,omitempty"`                // the session is lost and resumed; <resumed/> repeats the last acknowledged h
-	ResumeFailEarly    string     `json:"an_attempt_fails_before_resume_is_sent,omitempty"`
-	Twins              bool       `json:"two_identical_stanzas_in_a_row_first,omitempty"`
-	RawExtras          bool       `json:"raw_white_space_and_two_stanza_strings,omitempty"` // among the sends: SendRaw of white space (not a stanza) and of a string with two stanzas (two stanzas)
+	AfterRefusedResume  int        `json:"previous_session_stanzas_then_refused_resume"` // >0: a previous stream-managed session held this many stanzas, was lost, and its resumption was refused
+	Client              ClientOpts `json:"client"`
+	Steps               []c10Step  `json:"steps"`
+	Seg                 int        `json:"segmentation"`
+	LatencyNs           int64      `json:"latency_ns"`
+	ResumeDropFirst     bool       `json:"first_resumption_attempt_loses_its_connection,omitempty"` // with loss_and_resumption_at_the_end: the connection of the first attempt breaks while the answer to <resume/> is awaited
+	ResumeAtEnd         bool       `json:"loss_and_resumption_at_the_end,omitempty"`                // the session is lost and resumed; <resumed/> repeats the last acknowledged h
+	ResumeBreaksAtWrite int        `json:"connection_breaks_at_the_kth_write_of_the_retransmission_after_resumed,omitempty"`
+	ResumeFailEarly     string     `json:"an_attempt_fails_before_resume_is_sent,omitempty"`
+	Twins               bool       `json:"two_identical_stanzas_in_a_row_first,omitempty"`
+	RawExtras           bool       `json:"raw_white_space_and_two_stanza_strings,omitempty"` // among the sends: SendRaw of white space (not a stanza) and of a string with two stanzas (two stanzas)
 }
 
 func init() {
@@ -68,7 +69,9 @@ func runC10(e *Engine, g G, o RunOpt) RunInfo {
 	}
 	sc.ResumeAtEnd = g.Pct("resume-at-end", 35)
 	sc.ResumeDropFirst = sc.ResumeAtEnd && g.Pct("resume-drop-first", 40)
-	if sc.ResumeAtEnd && !sc.ResumeDropFirst && g.Pct("resume-fail-early", 50) {
+	if sc.ResumeAtEnd && !sc.ResumeDropFirst && g.Pct("resume-breaks-at-write", 35) {
+		sc.ResumeBreaksAtWrite = g.Range("resume-breaks-at-write-k", 1, 6)
+	} else if sc.ResumeAtEnd && !sc.ResumeDropFirst && g.Pct("resume-fail-early", 50) {
 		sc.ResumeFailEarly = []string{"auth-close", "header-close", "header-after-auth-close"}[g.N("resume-fail-early-at", 3)]
 	}
 	ns := g.Range("nsteps", 2, 8)
@@ -649,6 +652,40 @@ func runC10(e *Engine, g G, o RunOpt) RunInfo {
 						failedEarly = true
 						e.Probe("c10.attempt_failed_before_resume")
 					}
+				}
+				seenEarlier := map[string]bool{}
+				if sc.ResumeBreaksAtWrite > 0 && len(want) > 0 {
+					// The server confirms the resumption; the connection breaks while the held stanzas are being
+					// sent again. What had not been acknowledged is still not acknowledged: it stays held, and the
+					// next resumption - to a server that has counted what it did receive - delivers the rest.
+					brk := okScript
+					brk.FailWriteAfterResumed = 1 + (sc.ResumeBreaksAtWrite-1)%len(want)
+					bi := len(s.Srv.Conns)
+					s.Srv.Scripts[bi] = brk
+					e.Call("Resume (connection breaks during the retransmission)", s.W.Client.Resume)
+					e.Sleep(time.Duration(sc.Client.ConnectTimeout+2) * time.Second)
+					if len(s.Srv.Conns) == bi+1 && s.Srv.Conns[bi].Established == "resumed" {
+						for _, r := range s.Srv.Conns[bi].Elements() {
+							el := r.Item.Elem
+							if r.Phase >= 2 && (el.Local == "message" || el.Local == "presence" || el.Local == "iq") && el.Space != nsSM {
+								seenEarlier[string(r.Item.Raw)] = true
+							}
+						}
+						h += len(seenEarlier)
+						e.Probe("c10.connection_broke_during_retransmission")
+					}
+					okScript.ResumedH = h
+					for len(s.Srv.Scripts) <= len(s.Srv.Conns) {
+						s.Srv.Scripts = append(s.Srv.Scripts, okScript)
+					}
+					s.Srv.Scripts[len(s.Srv.Conns)] = okScript
+					var still []string
+					for _, raw := range want {
+						if !seenEarlier[raw] {
+							still = append(still, raw)
+						}
+					}
+					want = still
 				}
 				nc := len(s.Srv.Conns)
 				err, _ := e.Call("Resume", s.W.Client.Resume)
